@@ -406,6 +406,18 @@ def dispatch (st : DState) (fs : List String) : DState × String :=
         | (a, o) => ({ st with ar := a }, encOut o)
       else (st, "err NodeNotFound")
     | _, _, _ => bad
+  | ["ar.setlen", x, l] =>
+    -- a branch length overwritten in place through the public setters, both records (what `collapse` does for one node)
+    match x.toNat?, l.toInt? with
+    | some x, some l =>
+      if AR.isLive st.ar x then
+        match (AR.nd st.ar x).parent with
+        | some p =>
+          let a1 := st.ar.setIfInBounds x { AR.nd st.ar x with pedge := some l }
+          ({ st with ar := a1.setIfInBounds p (AR.setCedge (AR.nd a1 p) x (some l)) }, "ok")
+        | none => (st, "err root")
+      else (st, "err NodeNotFound")
+    | _, _ => bad
   | ["ar.setname", x, n] => match x.toNat?, decOptStr n with
     | some x, some n =>
       -- in-place edit of the payload through `get_mut` (refused for a removed or unknown id)
